@@ -270,6 +270,10 @@ func (w *World) atomsInto(fi *FuncInfo, fd *funcDefs, e ast.Expr, a *Atoms, seen
 				return
 			}
 			if o.Pkg() != nil && o.Parent() == o.Pkg().Scope() {
+				if t := w.constTableOf(o); t != nil {
+					w.tableAtoms(t, a, false)
+					return
+				}
 				a.Idents["global:"+short(objPkgPath(o))+"."+o.Name()] = true
 				return
 			}
@@ -285,6 +289,17 @@ func (w *World) atomsInto(fi *FuncInfo, fd *funcDefs, e ast.Expr, a *Atoms, seen
 							if name := calleeOfCall(info, call); name != "" && w.isNewName(name) {
 								// i-th result of a new function: that result only
 								w.atomsOfNewCall(w.Funcs[name], fd.tupleIx[o], a, depth)
+								continue
+							}
+						}
+					}
+					if tc, isTuple := fd.tupleOf[o]; isTuple && tc == d && fd.tupleIx[o] == 1 {
+						if ix, ok := d.(*ast.IndexExpr); ok {
+							if t := w.constTableExpr(info, ix.X); t != nil {
+								// `_, ok := table[k]`: membership decides on the keys only
+								w.tableAtoms(t, a, true)
+								a.Ops["index"] = true
+								w.atomsInto(fi, fd, ix.Index, a, seen, depth+1)
 								continue
 							}
 						}
@@ -337,6 +352,10 @@ func (w *World) atomsInto(fi *FuncInfo, fd *funcDefs, e ast.Expr, a *Atoms, seen
 				a.Lits[o.Val().ExactString()] = true
 			}
 		case *types.Var:
+			if t := w.constTableOf(o); t != nil {
+				w.tableAtoms(t, a, false)
+				return
+			}
 			a.Idents["global:"+short(objPkgPath(o))+"."+o.Name()] = true
 		case *types.Func:
 			a.Calls["func:"+fnName(o.FullName())] = true
@@ -671,14 +690,23 @@ func (w *World) atomsOfNewCall(tgt *FuncInfo, idx int, a *Atoms, depth int) {
 // inlinable: a gleece function whose body is exactly `return <expr>`.
 func (w *World) inlinable(name string) *FuncInfo {
 	fi := w.Funcs[name]
-	if fi == nil || fi.Decl.Body == nil || len(fi.Decl.Body.List) != 1 {
+	if fi == nil || !singleReturn(fi) {
 		return nil
 	}
-	ret, ok := fi.Decl.Body.List[0].(*ast.ReturnStmt)
-	if !ok || len(ret.Results) != 1 {
+	// a reviewed function that has only now become a single `return f(...)` (its body moved
+	// into a helper) stays the call it was when the inventories were reviewed
+	if w.base.loaded && w.base.fns[name] && !w.base.inl[name] {
 		return nil
 	}
 	return fi
+}
+
+func singleReturn(fi *FuncInfo) bool {
+	if fi == nil || fi.Decl.Body == nil || len(fi.Decl.Body.List) != 1 {
+		return false
+	}
+	ret, ok := fi.Decl.Body.List[0].(*ast.ReturnStmt)
+	return ok && len(ret.Results) == 1
 }
 
 // ---------------------------------------------------------------------------
